@@ -31,7 +31,9 @@ using vf::Verdict;
 
 namespace
 {
-    constexpr size_t F = fm::detail::debug_fence_size; // guaranteed fence bytes on each side
+    // guaranteed fence bytes on each side: the *configured* value (config_impl.hpp), not a constant the
+    // library derives from it
+    constexpr size_t F = FOONATHAN_MEMORY_DEBUG_FILL ? FOONATHAN_MEMORY_DEBUG_FENCE : 0;
 
     // The fence the allocator really wrote may be longer than debug_fence_size (max_alignment bytes
     // beside heap/malloc/new nodes, one page beside virtual memory nodes).  Its extent is observed,
